@@ -17,6 +17,19 @@ use ic_btc_interface::{
 use serde::Deserialize;
 use serde_json::{json, Value};
 use std::cell::RefCell;
+
+const METRIC_NAMES: &[&str] = &[
+    "main_chain_height", "stable_height", "utxos_length", "address_utxos_length", "anchor_difficulty",
+    "stability_threshold", "normalized_stability_threshold", "testnet_unstable_max_depth_difference",
+    "unstable_blocks_num_tips", "unstable_blocks_total", "unstable_blocks_depth", "unstable_blocks_difficulty_based_depth",
+    "num_get_successors_rejects", "num_block_deserialize_errors", "num_insert_block_errors", "send_transaction_count",
+    "is_synced", "api_access_flag_enabled", "api_access_flag_disabled",
+    "get_successors_request_count_type_total", "get_successors_request_count_type_initial", "get_successors_request_count_type_follow_up",
+    "get_successors_response_count_type_total", "get_successors_response_count_type_complete",
+    "get_successors_response_count_type_partial", "get_successors_response_count_type_follow_up",
+    "get_successors_response_block_count_type_total", "get_successors_response_block_count_type_complete",
+    "get_successors_response_block_count_type_partial", "get_successors_response_block_count_type_follow_up",
+];
 use std::collections::BTreeMap;
 use std::future::Future;
 use std::panic::{catch_unwind, AssertUnwindSafe};
@@ -641,6 +654,10 @@ impl Exec {
                 "reqFollow": st.get_successors_request_stats.follow_up_count,
                 "sendtx": s.metrics.send_transaction_count,
                 "burnt": burnt,
+                "respC": st.get_successors_response_stats.complete_count,
+                "respP": st.get_successors_response_stats.partial_count,
+                "respF": st.get_successors_response_stats.follow_up_count,
+                "blkC": st.get_successors_response_stats.complete_block_count,
             });
             let mut post = json!({
                 "stableH": s.utxos.next_height(),
@@ -993,6 +1010,8 @@ impl Exec {
                "post": self.project()})
     }
 
+    // (the names of the metrics the specification determines; histograms of instruction counts, sizes in
+    // bytes and the per-phase ingestion statistics are not modelled)
     fn q_info(&mut self) -> Value {
         let r = catch_unwind(AssertUnwindSafe(ic_btc_canister::get_blockchain_info));
         let ans = match r {
@@ -1002,6 +1021,72 @@ impl Exec {
                             "utxosLength": i.utxos_length}),
         };
         json!({"ev": "q", "ep": "info", "ans": ans})
+    }
+
+    /// The metrics endpoint (`http_request("/metrics")`, natively executable through the `verif` hook of
+    /// api/metrics.rs): status, headers, and the gauges / counters of the Prometheus text, by name.
+    fn q_metrics(&mut self, cmd: &Value) -> Value {
+        // the request is path [? query]; the specification decides on the path
+        let path = cmd["path"].as_str().unwrap_or("/metrics").to_string();
+        let url = match cmd["query"].as_str() { Some(q) => format!("{path}?{q}"), None => path.clone() };
+        let req = ic_btc_canister::types::HttpRequest {
+            method: "GET".to_string(),
+            url: url.clone(),
+            headers: vec![],
+            body: serde_bytes::ByteBuf::from(vec![]),
+        };
+        let r = catch_unwind(AssertUnwindSafe(|| ic_btc_canister::http_request(req)));
+        let ans = match r {
+            Err(_) => Self::trap_answer(),
+            Ok(resp) => {
+                let body = String::from_utf8_lossy(&resp.body).to_string();
+                let mut g = serde_json::Map::new();
+                let mut stamps_ok = true;
+                let mut wellformed = true;
+                let now_ms = (ic_btc_canister::runtime::time() / 1_000_000) as i64;
+                for line in body.lines() {
+                    if line.starts_with('#') || line.trim().is_empty() {
+                        continue;
+                    }
+                    // name{labels} value timestamp
+                    let parts: Vec<&str> = line.rsplitn(3, ' ').collect();
+                    if parts.len() != 3 {
+                        wellformed = false;
+                        continue;
+                    }
+                    let (ts, val, name) = (parts[0], parts[1], parts[2]);
+                    if ts.parse::<i64>().ok() != Some(now_ms) {
+                        stamps_ok = false;
+                    }
+                    let key: String = name.chars().map(|c| if c.is_ascii_alphanumeric() { c } else { '_' }).collect::<String>()
+                        .trim_end_matches('_').replace("__", "_");
+                    if key == "cycles_burnt" {
+                        // in units of what one heartbeat burns natively, like the projection of the state
+                        match val.parse::<f64>() {
+                            Ok(v) if v.fract() == 0.0 && (v as u128) % 1_000_000 == 0 => { g.insert(key, json!((v as u128 / 1_000_000) as u64)); }
+                            _ => { g.insert(key, json!(val)); }
+                        }
+                        continue;
+                    }
+                    if !METRIC_NAMES.contains(&key.as_str()) {
+                        if val.parse::<f64>().is_err() { wellformed = false; }
+                        continue;
+                    }
+                    match val.parse::<f64>() {
+                        Ok(v) if v.fract() == 0.0 && v.abs() < 2e9 => { g.insert(key, json!(v as i64)); }
+                        Ok(v) => { g.insert(key, json!(format!("{v}"))); }
+                        Err(_) => { wellformed = false; }
+                    }
+                }
+                let clen = resp.headers.iter().find(|(k, _)| k == "Content-Length").map(|(_, v)| v.clone());
+                let ctype = resp.headers.iter().find(|(k, _)| k == "Content-Type").map(|(_, v)| v.clone());
+                json!({"k": "ok", "status": resp.status_code, "nheaders": resp.headers.len(),
+                       "clenOk": clen.map(|c| c == resp.body.len().to_string()).unwrap_or(false),
+                       "ctype": ctype.unwrap_or_default(),
+                       "stampsOk": stamps_ok, "wellformed": wellformed, "bodyLen": resp.body.len(), "g": Value::Object(g)})
+            }
+        };
+        json!({"ev": "q", "ep": "metrics", "path": path, "url": url, "ans": ans})
     }
 
     fn q_config(&mut self) -> Value {
@@ -1253,6 +1338,7 @@ impl Exec {
                     "fees" => self.q_fees(cmd),
                     "info" => self.q_info(),
                     "config" => self.q_config(),
+                    "metrics" => self.q_metrics(cmd),
                     other => panic!("unknown endpoint {other}"),
                 }]
             }
